@@ -397,6 +397,7 @@ func runC09(c *Ctx) {
 	// one of the sites listed here with the reason why no lock is needed. A new field written from a function that several
 	// goroutines run (a scratch buffer shared by the spoof loops, say) has no entry in the table and lands here.
 	runC09AtomicOnly(c)
+	runC09PoolEscape(c)
 	r.Rule("unlisted-writes", "writes to fields of lock-bearing structs and to package-level variables outside the guarded-by table hold a lock or are listed single-writer sites", 8)
 	{
 		allowed := map[string]string{
@@ -846,5 +847,62 @@ func runC09AtomicOnly(c *Ctx) {
 	}
 	if len(keys) == 0 {
 		r.Add(core.Obligation{Rule: "atomic-only", Key: "atomic-only words", Func: "-", Status: core.Violated, Detail: "no sync/atomic access found in the module (ipHeartBeat was one)"})
+	}
+}
+
+// runC09PoolEscape: a buffer taken from a sync.Pool is not used after it went back: a function that puts a pooled object
+// back (directly or with defer) does not return a value derived from it. The caller of such a function would read - and
+// hand to WriteTo - a frame that the next sender, on another goroutine, is already overwriting.
+func runC09PoolEscape(c *Ctx) {
+	r := c.R
+	r.Rule("pool-escape", "no function returns (a slice of) a pooled buffer it has put back", 10)
+	kg := core.NewKeyGen()
+	for _, fn := range c.P.LibFunctions() {
+		var puts []ssa.Value
+		core.EachInstr(fn, func(i ssa.Instruction) {
+			var cc *ssa.CallCommon
+			switch t := i.(type) {
+			case *ssa.Call:
+				cc = &t.Call
+			case *ssa.Defer:
+				cc = &t.Call
+			}
+			if cc == nil || cc.StaticCallee() == nil || cc.StaticCallee().String() != "(*sync.Pool).Put" || len(cc.Args) < 2 {
+				return
+			}
+			puts = append(puts, cc.Args[1])
+		})
+		if len(puts) == 0 {
+			continue
+		}
+		// the pooled objects: what the Put arguments are made of (the type-asserted result of Get)
+		pooled := map[ssa.Value]bool{}
+		for _, p := range puts {
+			for w := range dataSlice(fn, p) {
+				if ta, ok := w.(*ssa.TypeAssert); ok {
+					pooled[ta] = true
+				}
+			}
+		}
+		st, det := core.Proved, ""
+		core.EachInstr(fn, func(i ssa.Instruction) {
+			ret, ok := i.(*ssa.Return)
+			if !ok {
+				return
+			}
+			for _, res := range ret.Results {
+				if _, isErr := res.Type().Underlying().(*types.Interface); isErr {
+					continue
+				}
+				for w := range dataSlice(fn, res) {
+					if pooled[w] {
+						st = core.Violated
+						det = core.FuncName(fn) + " puts a pooled buffer back and returns " + norm(res) + ", which is a view of it: the caller uses the buffer after another goroutine may have taken it from the pool"
+					}
+				}
+			}
+		})
+		r.Add(core.Obligation{Rule: "pool-escape", Key: strings.TrimSuffix(kg.Key("pool-escape "+core.FuncName(fn)), "#0"), Func: core.FuncName(fn), Pos: c.P.Pos(fn.Pos()), Status: st,
+			Basis: "no result derives from the object handed to Pool.Put", Detail: det})
 	}
 }
